@@ -55,12 +55,12 @@ def allocate (p : Params) (fat : List Nat) (hint bound n : Nat) : Option AllocRe
 
 inductive Walk where
   | ok (chain : List Nat)
-  | indexError (chain : List Nat)       -- `self.fat[i]` with `i == len(fat)` (the `<=` in the source)
-  | silentStop (chain : List Nat)       -- `i > len(fat)`: the while loop just ends
+  | leaves (chain : List Nat)           -- PyFATException(EIO): a link outside the table
+  | loop (chain : List Nat)             -- PyFATException(EIO): chain longer than the table (a cycle)
   | bad (chain : List Nat)              -- PyFATException "Bad cluster"
   | free (chain : List Nat)             -- PyFATException "FREE_CLUSTER mark"
   | invalid (chain : List Nat)          -- PyFATException "Invalid or unknown"
-  | hang (chain : List Nat)             -- fuel exhausted: a cycle, the real generator never ends
+  | hang (chain : List Nat)             -- fuel exhausted: would mean the real generator never ends
   deriving Repr, DecidableEq
 
 inductive Cls where
@@ -76,22 +76,22 @@ def classify (p : Params) (v : Nat) : Cls :=
   else if v = p.cv.free then .free
   else .invalid
 
-/-- `get_cluster_chain`, collected into a list. -/
-def follow (p : Params) (fat : List Nat) : (fuel i : Nat) → (acc : List Nat) → Walk
-  | 0, _, acc => .hang acc
-  | fuel + 1, i, acc =>
-    if i > fat.length then .silentStop acc
-    else if i = fat.length then .indexError acc
+/-- `get_cluster_chain`, collected into a list; `steps` is the loop counter of the source. -/
+def follow (p : Params) (fat : List Nat) : (fuel steps i : Nat) → (acc : List Nat) → Walk
+  | 0, _, _, acc => .hang acc
+  | fuel + 1, steps, i, acc =>
+    if fat.length ≤ i then .leaves acc
+    else if fat.length < steps then .loop acc
     else
       match classify p (fat.getD i 0) with
-      | .data => follow p fat fuel (fat.getD i 0) (acc ++ [i])
+      | .data => follow p fat fuel (steps + 1) (fat.getD i 0) (acc ++ [i])
       | .eoc => .ok (acc ++ [i])
       | .bad => .bad acc
       | .free => .free acc
       | .invalid => .invalid acc
 
 def chainOf (p : Params) (fat : List Nat) (start : Nat) : Walk :=
-  follow p fat (fat.length + 1) start []
+  follow p fat (fat.length + 2) 0 start []
 
 /-- `free_cluster_chain`: every cluster the follower yields is set to FREE, the
     hint is lowered.  (The follower reads the *old* table: `tmp_fat` is a copy.) -/
